@@ -750,6 +750,21 @@ func solveAll(obls []*Obligation, workdir string, quickSec, slowSec int, thoroug
 		if isLit(o.Goal, "true") && !o.ExpectSat {
 			continue
 		}
+		if !o.ExpectSat && o.Orig != nil && o.Orig.Op != "true" {
+			// the goal is literally one of the hypotheses (an invariant conjunct
+			// about storage the body does not touch): nothing to solve
+			gs := alphaKey(o.Orig)
+			hit := false
+			for _, h := range o.Hyps {
+				if h == o.Orig || (h.Op == o.Orig.Op && len(h.Args) == len(o.Orig.Args) && alphaKey(h) == gs) {
+					hit = true
+					break
+				}
+			}
+			if hit {
+				continue
+			}
+		}
 		scripts[i] = o.Script(false)
 		if !o.ExpectSat && (o.X.model.Name == "real" || o.X.model.Name == "int") {
 			pure[i] = o.PurifiedScript()
@@ -791,6 +806,18 @@ func solveAll(obls []*Obligation, workdir string, quickSec, slowSec int, thoroug
 	}
 	if thorough {
 		run(all, jobs, quickSec, slowSec, false)
+		// what no solver of the base set decided gets the diversified
+		// portfolio as in the quick tier (some lemmas are only found by
+		// cvc5's enumerative instantiation)
+		var again []int
+		for i, r := range res {
+			if !obls[i].ExpectSat && !noRetry[obls[i].Name] && (r.Status == "timeout" || r.Status == "unknown" || r.Status == "error" && !strings.Contains(r.Output, "disagreement")) {
+				again = append(again, i)
+			}
+		}
+		if len(again) > 0 {
+			run(again, 3, quickSec, slowSec, true)
+		}
 	} else {
 		// Pass 1: everything, with a limit that leaves room for the load
 		// the pass itself creates (each obligation races up to five solver
